@@ -27,6 +27,40 @@ type Case struct {
 	Defect  string       `json:"defect,omitempty"`
 	ViewBox [4]ops.F32   `json:"viewbox"`
 	Palette *ops.Palette `json:"palette,omitempty"`
+	// An earlier, unrelated Decode with palette options in the same process
+	// (0 = none): 1 WithColorAt on a graphic without chunks, 2 WithPalette on
+	// one, 3 WithColorAt on a graphic with a viewBox chunk only, 4 the same
+	// bytes as this case decoded with WithColorAt first.
+	Prior    int       `json:"prior,omitempty"`
+	PriorIdx int       `json:"prior_idx,omitempty"`
+	PriorCol ops.ColorV `json:"prior_col,omitempty"`
+}
+
+var pristine = ivg.DefaultMetadata
+
+// priorDecode is the earlier use: whatever it does to its own destination, the
+// defaults and the stored metadata the case under test receives are its own.
+func priorDecode(c Case) {
+	col := color.RGBA{c.PriorCol.R, c.PriorCol.G, c.PriorCol.B, c.PriorCol.A}
+	var g []byte
+	var opt decode.DecodeOption
+	switch c.Prior {
+	case 1:
+		g, opt = []byte{0x89, 'I', 'V', 'G', 0x00, 0xc0, 0x80, 0x80, 0xe1}, decode.WithColorAt(c.PriorIdx&63, col)
+	case 2:
+		var pal [64]color.RGBA
+		for i := range pal {
+			pal[i] = col
+		}
+		g, opt = []byte{0x89, 'I', 'V', 'G', 0x00}, decode.WithPalette(pal)
+	case 3:
+		g, opt = []byte{0x89, 'I', 'V', 'G', 0x02, 0x0a, 0x00, 0x50, 0x50, 0xb0, 0xb0, 0xc0, 0x80, 0x80, 0xe1}, decode.WithColorAt(c.PriorIdx&63, col)
+	case 4:
+		g, opt = append([]byte{}, c.Bytes...), decode.WithColorAt(c.PriorIdx&63, col)
+	default:
+		return
+	}
+	decode.Decode(&ops.Recorder{}, g, opt)
 }
 
 func sameVB(a ivg.ViewBox, b [4]float32) bool {
@@ -39,6 +73,8 @@ func isDecodeError(err error) bool {
 }
 
 func checkMeta(c Case) error {
+	ivg.DefaultMetadata = pristine // every case starts from the library's own initial state
+	priorDecode(c)
 	src := append([]byte{}, c.Bytes...)
 	rec := &ops.Recorder{}
 	err := decode.Decode(rec, src)
@@ -170,7 +206,12 @@ func TestMetadata(t *testing.T) {
 			c.Expect = "invalid"
 			c.Defect = exp.Defect
 		}
-		labels := append([]string{"expect=" + c.Expect}, exp.Labels...)
+		if rapid.IntRange(0, 3).Draw(t, "hasPrior") == 0 {
+			c.Prior = rapid.IntRange(1, 4).Draw(t, "prior")
+			c.PriorIdx = rapid.SampledFrom([]int{0, 0, 1, 2, 62, 63, 17}).Draw(t, "priorIdx")
+			c.PriorCol = ops.RGBAv(gen.AnyRGBA(t, "priorCol"))
+		}
+		labels := append([]string{"expect=" + c.Expect, fmt.Sprintf("prior-decode=%d", c.Prior)}, exp.Labels...)
 		nontrivial := len(b) > 5
 		subMeta.See(c, nontrivial, harness.Hash(c.Bytes), labels...)
 		subMeta.Run(t, c)
